@@ -412,12 +412,14 @@ package server
 
 //@ func (*Server).setSettings
 //@   props C19
-//@   requires s != nil
+//@   requires s != nil && (s.loader != nil ==> LCacheOK(s.loader))
+//@   ensures [C11:loader_coherent] s.loader != nil ==> LCacheOK(s.loader)
+//@   ensures [C19:limits_reach_the_loader] s.loader != nil && s.loader.limits != old(s.loader.limits) ==> (forall q string :: !has(s.loader.cache, q))
 //@   ensures [C19:stored_maxresults] s.settings.Completion.MaxResults == ite(settings.Completion.MaxResults <= 0, 50, settings.Completion.MaxResults)
 //@   ensures [C19:stored_indent] s.settings.Formatting.IndentSize == ite(settings.Formatting.IndentSize <= 0, 4, settings.Formatting.IndentSize)
 //@   ensures [C19:stored_switches] s.settings.Features == settings.Features && s.settings.Diagnostics == settings.Diagnostics && s.settings.Completion.FuzzyMatching == settings.Completion.FuzzyMatching && s.settings.Formatting.AlignAmounts == settings.Formatting.AlignAmounts
 //@   ensures [C19:stored_positive] s.settings.Completion.MaxResults > 0 && s.settings.Formatting.IndentSize > 0 && s.settings.Limits.MaxIncludeDepth > 0 && s.settings.Limits.MaxFileSizeBytes > 0
-//@   modifies s.settings, s.cliClient
+//@   modifies s.settings, s.cliClient, s.loader.cache, s.loader.limits
 
 //@ func parseSettingsFromRaw
 //@   props C19
@@ -427,10 +429,10 @@ package server
 
 //@ func (*Server).refreshConfiguration
 //@   props C19
-//@   requires s != nil && s.settings.Completion.MaxResults > 0 && s.settings.Formatting.IndentSize > 0
+//@   requires s != nil && s.settings.Completion.MaxResults > 0 && s.settings.Formatting.IndentSize > 0 && (s.loader != nil ==> LCacheOK(s.loader))
 //@   ensures [C19:refresh_nonobject] len(result) > 0 && !typeis(result[0], "map[string]interface{}") ==> s.settings.Completion.MaxResults == old(s.settings.Completion.MaxResults) && s.settings.Formatting.IndentSize == old(s.settings.Formatting.IndentSize) && s.settings.Features == old(s.settings.Features) && s.settings.Diagnostics == old(s.settings.Diagnostics)
 //@   ensures [C19:refresh_unsupported] !old(s.supportsConfiguration) ==> s.settings == old(s.settings)
-//@   modifies s.settings, s.cliClient
+//@   modifies s.settings, s.cliClient, s.loader.cache, s.loader.limits
 
 // ---- C16: matching, filtering and the result limit of completion ----
 // emb(p, j, t, i): the first j runes of p occur, in order, among the first i runes of t (subsequence embedding).
